@@ -35,6 +35,8 @@ class Env:
         self.n_timers = 0
         self.escapes = []
         self.scheduler = None
+        self.sync = {}          # source number -> events it delivers inside subscribe() (first subscription only)
+        self.inner_dispose = None
 
     def new_source(self):
         s = MSource(self, len(self.sources))
@@ -61,6 +63,24 @@ class MSource:
                 if rec[1]:
                     rec[1] = False
                     env.log.append((env.tag, "unsub", k, None))
+            sync = env.sync.pop(k, None) if env.sync else None
+            if sync:
+                # a source that emits a prefix and/or terminates inside its own subscribe(), before the
+                # subscriber holds the subscription (run_multi(sync=...); first subscription only)
+                for ev in sync:
+                    if not rec[1]:
+                        break
+                    try:
+                        if ev[0] == "N":
+                            observer.on_next(ev[1])
+                        elif ev[0] == "E":
+                            observer.on_error(ev[1])
+                        else:
+                            observer.on_completed()
+                    except SubscriberError:
+                        pass
+                    except Exception as e:
+                        env.escapes.append((env.tag, e))
             return Disposable(dispose)
         self.observable = reactivex.Observable(subscribe)
 
@@ -129,11 +149,20 @@ def make_scheduler(env):
 
 
 def run_multi(build, n_static, events, use_scheduler=False, dispose_at=None, horizon=None, warmup=None,
-              after_warmup=None, subscriber_raises=False):
+              after_warmup=None, subscriber_raises=False, dispose_prio=2, dispose_in_on_next=None, sync=None):
     """events: list of (time_ms, k, ev) source notifications (time non-decreasing).
     dispose_at: time_ms at which the subscriber disposes (after events at that time).
     Returns dict(log, inputs) where inputs is the delivered input sequence
-    [(now, ('src',k,ev) | ('tick',tag) | ('dispose',))]."""
+    [(now, ('src',k,ev) | ('tick',tag) | ('dispose',))].
+    Optional, defaults reproduce the behaviour every existing caller relies on:
+      dispose_prio        2 (default): the dispose comes AFTER the source events and timers of its instant;
+                          -1: BEFORE them (dispose_at=-1 puts it before the first event)
+      dispose_in_on_next  k >= 1: the subscriber disposes its own subscription from INSIDE its k-th on_next (if
+                          subscribe() has returned by then).  Not part of `inputs`; the result carries
+                          inner_dispose = dict(tag, pos, n_sources, n_timers): the step it happened in and the
+                          lengths of env.log / env.sources / timer count when dispose() RETURNED
+      sync                {source number: [events]} delivered by that source inside its own subscribe()
+                          (first subscription of the measured run only; also for sources made by mappers)"""
     env = Env()
     sched = make_scheduler(env) if use_scheduler else None
     statics = [env.new_source() for _ in range(n_static)]
@@ -169,9 +198,19 @@ def run_multi(build, n_static, events, use_scheduler=False, dispose_at=None, hor
 
     k2.CURRENT_TAG[0] = 0
     del k2.RAISED[:]
+    if sync:
+        env.sync = {k: list(v) for k, v in sync.items()}
+    holder = [None]
+    nexts = [0]
 
     def on_next(v):
         env.log.append((env.tag, "emit", "N", v))
+        if dispose_in_on_next is not None:
+            nexts[0] += 1
+            if nexts[0] == dispose_in_on_next and holder[0] is not None and env.inner_dispose is None:
+                holder[0].dispose()
+                env.inner_dispose = {"tag": env.tag, "pos": len(env.log), "n_sources": len(env.sources),
+                                     "n_timers": env.n_timers}
 
     def on_error(e):
         env.log.append((env.tag, "emit", "E", e))
@@ -189,6 +228,7 @@ def run_multi(build, n_static, events, use_scheduler=False, dispose_at=None, hor
     except Exception as e:
         env.escapes.append((0, e))
         sub = None
+    holder[0] = sub
     inputs = []
     pending = list(events)
     disposed = False
@@ -201,7 +241,7 @@ def run_multi(build, n_static, events, use_scheduler=False, dispose_at=None, hor
             tag = min(env.timers, key=lambda t: (env.timers[t][0], t))
             cands.append((env.timers[tag][0], 1, "tick"))
         if dispose_at is not None and not disposed:
-            cands.append((dispose_at, 2, "dispose"))
+            cands.append((dispose_at, dispose_prio, "dispose"))
         if not cands:
             break
         t, _, what = min(cands)
@@ -231,7 +271,7 @@ def run_multi(build, n_static, events, use_scheduler=False, dispose_at=None, hor
         if len(inputs) > 400:
             break
     return {"build_error": None, "env": env, "inputs": inputs, "log": env.log, "escapes": env.escapes,
-            "raised": list(k2.RAISED)}
+            "raised": list(k2.RAISED), "inner_dispose": env.inner_dispose}
 
 
 # ---- rendering --------------------------------------------------------------
